@@ -127,6 +127,7 @@ def build():
     u.ghost_call("read_to_end", method=True)
     u.ghost_call("chown", quals=("unistd",))
     u.ghost_call("fchownat", quals=("unistd",))
+    u.ghost_call("set_permissions", method=True)
     u.ghost_call("call", quals=("hooks",))
     u.take("acmed/src/main.rs", "DEFAULT_ACCOUNT_FILE_MODE", "")
     u.drop_derives = {"Debug", "Eq", "Hash", "PartialEq", "Clone"}
@@ -287,7 +288,7 @@ pub open spec fn hook_ev(fm: FileManager, t: FileType, ty: HookType) -> FsEvent 
 }
 // the kind of an effect (which hook type / open / write / chown), without its details
 pub open spec fn ev_kind(e: FsEvent) -> int {
-    match e { FsEvent::Hook { ty, .. } => ty, FsEvent::Open { .. } => 100, FsEvent::Write { .. } => 101, FsEvent::Chown { .. } => 102, FsEvent::Rename { .. } => 103, FsEvent::Remove { .. } => 104, FsEvent::Lchown { .. } => 105 }
+    match e { FsEvent::Hook { ty, .. } => ty, FsEvent::Open { .. } => 100, FsEvent::Write { .. } => 101, FsEvent::Chown { .. } => 102, FsEvent::Rename { .. } => 103, FsEvent::Remove { .. } => 104, FsEvent::Lchown { .. } => 105, FsEvent::Chmod { .. } => 106 }
 }
 // b continues a, and what it adds is, kind by kind, a beginning of t
 pub open spec fn adds_a_beginning_of(a: Seq<FsEvent>, b: Seq<FsEvent>, t: Seq<FsEvent>) -> bool {
